@@ -1081,6 +1081,12 @@ func (g *Gen) Program(minStmts, maxStmts int) *ast.Root {
 			root.Stmts = g.StmtList(minStmts, maxStmts, true)
 		}
 	}
+	if len(g.O.LeadHTML) > 0 {
+		t := g.tok(token.T_INLINE_HTML, string(g.O.LeadHTML))
+		g.setGap(t, GapNone)
+		g.feat("lead-html-padding")
+		root.Stmts = append([]ast.Vertex{&ast.StmtInlineHtml{InlineHtmlTkn: t, Value: t.Value}}, root.Stmts...)
+	}
 	if !g.O.NoHalt && g.chance(1, 12, "halt") {
 		last := lastToken(root)
 		if last == nil || !endsInCloseTag(last) {
